@@ -77,10 +77,17 @@ func (t *Type) AddAttr(attr Attr) error {
 		return fmt.Errorf("jsonapi: attribute type is invalid")
 	}
 
-	// Make sure the name isn't already used
+	// Make sure the name isn't already used. Attributes and relationships
+	// share one namespace: they are the fields of the resources.
 	for i := range t.Attrs {
 		if t.Attrs[i].Name == attr.Name {
 			return fmt.Errorf("jsonapi: attribute name %q is already used", attr.Name)
+		}
+	}
+
+	for i := range t.Rels {
+		if t.Rels[i].FromName == attr.Name {
+			return fmt.Errorf("jsonapi: attribute name %q is already used by a relationship", attr.Name)
 		}
 	}
 
@@ -129,10 +136,17 @@ func (t *Type) checkRel(rel Rel) error {
 		return fmt.Errorf("jsonapi: relationship type is empty")
 	}
 
-	// Make sure the name isn't already used
+	// Make sure the name isn't already used. Attributes and relationships
+	// share one namespace: they are the fields of the resources.
 	for i := range t.Rels {
 		if t.Rels[i].FromName == rel.FromName {
 			return fmt.Errorf("jsonapi: relationship name %q is already used", rel.FromName)
+		}
+	}
+
+	for i := range t.Attrs {
+		if t.Attrs[i].Name == rel.FromName {
+			return fmt.Errorf("jsonapi: relationship name %q is already used by an attribute", rel.FromName)
 		}
 	}
 
